@@ -203,6 +203,21 @@ def c10_3(ctx, r):
                     "version numbers increase with every change")
 
 
+@rule(P, "C10.3b", "T2", "the version file is written before the data file (a crash between the two leaves the version ahead, never behind)", min_obligations=2)
+def c10_3b(ctx, r):
+    for spec, (want, reader, attr, writer) in VERSION_RULES.items():
+        fn = ctx.fn(spec, "C10.3b")
+        vw = [n for s in ctx.sites(fn, short=writer) for n in ctx.nodes_of(fn, s.node)]
+        dw = [n for s in ctx.sites(fn, short="Cluster._serialize_file") for n in ctx.nodes_of(fn, s.node)]
+        if not vw or not dw:
+            raise AnalysisError("C10.3b", f"{fn.short}: version write / data write not found")
+        for d in dw:
+            r.check(dominated_by(ctx, fn, d, vw, ALL_KINDS), f"{fn.short}: the version-file write dominates the data-file write", key_of(fn, "data file written before version file"), fn.loc(d.stmt),
+                    "the data file is written before the version file: if the writer dies (or the second write fails) in between, the new state is on disk while the version file still shows the old version, "
+                    "so a handle loaded before the update passes the version comparison and overwrites the newer state",
+                    "A process holding an out-of-date copy of the cluster state cannot write it")
+
+
 @rule(P, "C10.4", "T5", "demote_from_submitter() only in typestate Promoted", min_obligations=8)
 def c10_4(ctx, r):
     report_role(ctx, r, ROLE_SITES, {"demote"}, "promotion fails while another holds the role (a process that was refused must not clear the field)")
